@@ -495,7 +495,8 @@ fn build_debug_for_struct(
     let use_bounds = e.push_bounds_to_with(hattrs, kind, &mut wcb);
     let to_expr = |field: &FieldEntry| {
         let member = field.member();
-        quote!(&self.#member)
+        // `&&` so that an unsized last field can be passed as `&dyn Debug`.
+        quote!(&&self.#member)
     };
     let expr = build_debug_expr(
         this_ty_ident,
